@@ -97,6 +97,54 @@ try:
             q = Lark(inlined, parser=parser)
             if beh(p, inputs) != beh(q, inputs):
                 note('scenario', {'grammar': g, 'inlined': inlined, 'parser': parser}, beh(p, inputs), beh(q, inputs))
+    # ---- templates
+    def rename(x, f):
+        return (f(x[0]), [rename(c, f) if isinstance(c[1], list) else c for c in x[1]]) if isinstance(x[1], list) else x
+    def behn(p, inputs, f):
+        out = []
+        for t in inputs:
+            try: out.append(str(rename(norm(p.parse(t)), f)))
+            except Exception as e: out.append('err:' + type(e).__name__)
+        return out
+    import re as _re
+    strip = lambda name: _re.sub(r'\{.*\}$', '', name)          # an instance `kw{X}` is compared with a hand-written rule named kw_X
+    open(os.path.join(d, 'tl.lark'), 'w').write('_sep{x, s}: x (s x)*\nnumber_list: "[" _sep{NUMBER, ","} "]"\nNUMBER: /[0-9]+/\n')
+    TS = [
+        # a template declared with a priority: every instance carries it (Earley picks the higher-priority reading)
+        ('start: kw{PASS} | name\nkw{w}.2: w\nname: NAME\nPASS: "pass"\nNAME: /[a-z]+/\n', 'start: kw | name\nkw.2: PASS\nname: NAME\nPASS: "pass"\nNAME: /[a-z]+/\n', ['pass', 'x'], 'earley', {'lexer': 'dynamic'}),
+        ('start: a{X} | b\na{t}.3: t t\nb.1: X X\nX: "x"\n', 'start: a | b\na.3: X X\nb.1: X X\nX: "x"\n', ['xx'], 'earley', {}),
+        ('start: a{X} | b\na{t}.1: t t\nb.3: X X\nX: "x"\n', 'start: a | b\na.1: X X\nb.3: X X\nX: "x"\n', ['xx'], 'earley', {}),
+        # modifiers of the template reach the instance
+        ('start: w{X}\n!w{t}: "(" t ")"\nX: "x"\n', 'start: w\n!w: "(" X ")"\nX: "x"\n', ['(x)'], 'lalr', {}),
+        ('start: w{X} w{Y}\n?w{t}: t | "(" t t ")"\nX: "x"\nY: "y"\n', 'start: wx wy\n?wx: X | "(" X X ")"\n?wy: Y | "(" Y Y ")"\nX: "x"\nY: "y"\n', ['xy', '(xx)y', 'x(yy)'], 'lalr', {}),
+    ]
+    for g, hand, inputs, parser, opts in TS:
+        evals += 1; distinct += 1
+        try:
+            p = Lark(g, parser=parser, **opts); q = Lark(hand, parser=parser, **opts)
+        except Exception as e:
+            note('template-instance', {'grammar': g}, 'construction raised %s: %s' % (type(e).__name__, str(e)[:100]), 'same as hand-written grammar'); continue
+        a, b_ = behn(p, inputs, lambda n: strip(n)), behn(q, inputs, lambda n: _re.sub(r'(?<=[a-z])[xy]$', '', n) if n in ('wx', 'wy') else n)
+        if a != b_:
+            note('template-instance', {'grammar': g, 'hand_instantiated': hand, 'parser': parser}, a, b_)
+    # an imported rule that uses a template of its own module, while the importing grammar has a template of the same name and arity
+    for local in ('', '_sep{k, c}: k c k\n', 'pair: _sep{NUMBER, ":"}\n_sep{k, c}: k c k\n'):
+        g = 'start: number_list%s\n%%import tl (number_list, NUMBER)\n%s' % (' | pair' if 'pair' in local else '', local)
+        hand = 'start: number_list%s\nnumber_list: "[" NUMBER ("," NUMBER)* "]"\nNUMBER: /[0-9]+/\n%s' % (' | pair' if 'pair' in local else '', 'pair: NUMBER ":" NUMBER\n' if 'pair' in local else '')
+        inputs = ['[1]', '[1,2,3]', '[1:2]', '1:2']
+        evals += 1; distinct += 1
+        for parser in ('lalr', 'earley'):
+            try:
+                p = Lark(g, import_paths=[d], parser=parser)
+            except Exception as e:
+                note('template-capture', {'grammar': g, 'lib': open(os.path.join(d, 'tl.lark')).read()}, 'construction raised %s: %s' % (type(e).__name__, str(e)[:120]), 'same as hand-written grammar'); continue
+            q = Lark(hand, parser=parser)
+            acc = lambda P: [('ok' if _ok(P, t) else 'rejected') for t in inputs]
+            def _ok(P, t):
+                try: P.parse(t); return True
+                except Exception: return False
+            if acc(p) != acc(q):
+                note('template-capture', {'grammar': g, 'lib': open(os.path.join(d, 'tl.lark')).read(), 'parser': parser}, acc(p), acc(q))
 finally:
     shutil.rmtree(d, ignore_errors=True)
 res = {'fails': bool(fails), 'evaluations': evals, 'distinct': distinct, 'failures': fails}
